@@ -57,6 +57,11 @@ ASSUMPTIONS = [
     'the implicit-function-theorem totals are well conditioned; the reference state is solved to 1e-14',
     'undeclared (of, wrt) pairs are only left undeclared when the reference derivative is identically zero at '
     'three random points',
+    'jax derivatives of tanh are formed as 1 - tanh(u)**2 (jax rule): every derivative tolerance of a jax-method case '
+    'includes the relative term 4 eps cosh(u_max)**2, u_max = largest |argument| of any tanh in the reference evaluation',
+    'function components with coloring: a case is skipped when, at the first point (where the sparsity behind the '
+    'coloring is sampled by fd / cs), a derivative that is nonzero at the second point is below 1e-9 x max(1, |f|, |J|) '
+    'and 1000 x smaller than at the second point ("non-constant computed zeros", documented for dynamic coloring)',
     'histories: at degenerate points the conditioning estimate perturbs the operands by 1e-13 max(|x|, 1) (absolute '
     'where x = 0); every tolerance includes 1e-50 for the truncation error h^2 f\'\'\'/6 of the complex-step reference',
     'histories: a violation is filed under <class>/first-linearization-where-a-derivative-is-exactly-zero when every '
@@ -281,8 +286,15 @@ def reference_callable(case, fd=None):
     if fd['static']:
         args.append(fd['static'])
     src = F.module_header('np') + F.render_function('ref', args, fd['lines'], rets, 'np')
-    ns = {}
-    exec(compile(src, '<omv-c34-reference>', 'exec'), ns)   # noqa: S102 - our own generated source
+    tanh_max = [0.0]      # largest |argument| any tanh of the function has seen (saturation monitor)
+
+    def _tanh(u):
+        a = float(np.max(np.abs(np.real(u)))) if np.size(u) else 0.0
+        if a > tanh_max[0]:
+            tanh_max[0] = a
+        return np.tanh(u)
+    ns = {'_tanh': _tanh}
+    exec(compile(src.replace('np.tanh(', '_tanh('), '<omv-c34-reference>', 'exec'), ns)   # noqa: S102 - own source
     fun = ns['ref']
     static = [cfg['static_val']]    # current value of the static argument (histories change it)
     shapes = [tuple(fd['states'][s]) for s in fd['states']] if implicit else [tuple(s) for s in fd['outputs'].values()]
@@ -297,6 +309,7 @@ def reference_callable(case, fd=None):
             res = (res,)
         return [np.broadcast_to(np.asarray(r), shp) for r, shp in zip(res, shapes)]
     call.static = static
+    call.tanh_max = tanh_max
     return call, src
 
 
@@ -669,6 +682,20 @@ def judge(case, acc, seed=0):
     # the generated reference itself must be evaluable (an exception here is a harness error, not a finding)
     refcall([np.array(case['points'][0][n], dtype=float).reshape(tuple(shp))
              for n, shp in list(fd['inputs'].items()) + (list(fd['states'].items()) if implicit else [])])
+    if not jaxkind and cfg['coloring'] and len(case['points']) > 1:
+        # function components compute the sparsity behind their coloring from finite differences / complex steps at
+        # the first point, where an entry smaller than the tolerance counts as a structural zero ("non-constant
+        # computed zeros", documented for dynamic coloring): a case whose first point has such an entry (e.g. a
+        # saturated tanh: the difference quotient is exactly 0) is outside the domain of the property
+        pts = [[np.array(pt[n], dtype=float).reshape(tuple(shp))
+                for n, shp in list(fd['inputs'].items()) + (list(fd['states'].items()) if implicit else [])]
+               for pt in case['points'][:2]]
+        (f0, Ja), (_, Jb) = cs_jac(refcall, pts[0]), cs_jac(refcall, pts[1])
+        Ja, Jb = np.abs(np.block(Ja)), np.abs(np.block(Jb))
+        scale = max([1.0, float(Ja.max()) if Ja.size else 0.0] + [float(np.max(np.abs(o))) for o in f0 if o.size])
+        if np.any((Ja < 1e-9 * scale) & (Jb > CS_TRUNC) & (Jb > 1e3 * Ja)):
+            acc.skip('coloring of a function component sampled where a structurally nonzero derivative computes to zero')
+            return
     # what is being attempted (counted even when the case fails early)
     acc.count('kind:' + kind)
     acc.count(cell_name(kind, cfg))
@@ -771,10 +798,14 @@ def judge(case, acc, seed=0):
                     tag = ':after-first-linearization-at-%s%s%s' % (
                         hist['classes'][first_idx], rs if first_idx else '',
                         '+static-changed' if seq and seq[pi] != seq[first_idx] else '')
+            refcall.tanh_max[0] = 0.0
             if hist and hist['classes'][pi] != 'generic':
                 o0, J0, Do, DJ = _spread_abs(refcall, allx, seed * 31 + pi)
             else:
                 o0, J0, Do, DJ = perturbed_spread(refcall, allx, seed * 31 + pi)
+            # jax differentiates tanh as 1 - tanh(u)**2: absolute rounding error ~ 2 ulp(1) of a factor that is
+            # 1 / cosh(u)**2, i.e. a relative error of 4 EPS cosh(u)**2 in every derivative that passes through it
+            ad_rel = 4 * EPS * float(np.cosh(min(refcall.tanh_max[0], 300.0))) ** 2 if cfg['method'] == 'jax' else 0.0
             extra = None
             if cfg['method'] == 'fd':
                 extra = _fd_bound(refcall, allx, J0, o0)
@@ -845,7 +876,7 @@ def judge(case, acc, seed=0):
                 for oi, o in enumerate(out_names):
                     for ii, w in enumerate(wrts):
                         ref = J0[oi][ii]
-                        tol = tol_of(ref, DJ[oi][ii]) + 16 * EPS * np.abs(ref)
+                        tol = tol_of(ref, DJ[oi][ii]) + (16 * EPS + ad_rel) * np.abs(ref)
                         if extra is not None:
                             tol = tol + extra[oi][ii]
                         sj = dense_subjac(comp, o, w)
@@ -916,7 +947,7 @@ def judge(case, acc, seed=0):
                         for ii, w in enumerate(in_names):
                             nc = xs[ii].size
                             ref = T[r0:r0 + nr, c0:c0 + nc]
-                            tol = tol_of(T, DT[r0:r0 + nr, c0:c0 + nc]) + 1e-10 * condA * np.max(np.abs(T))
+                            tol = tol_of(T, DT[r0:r0 + nr, c0:c0 + nc]) + (1e-10 + ad_rel) * condA * np.max(np.abs(T))
                             if cfg['method'] == 'fd':
                                 tol = tol + 1e-4 * condA * (np.max(np.abs(T)) + 1.0)
                             acc.count('obs:totals-' + mode)
@@ -928,7 +959,7 @@ def judge(case, acc, seed=0):
                 for oi, o in enumerate(out_names):
                     for ii, w in enumerate(in_names):
                         ref = J0[oi][ii]
-                        tol = tol_of(ref, DJ[oi][ii]) + 64 * EPS * np.abs(ref)
+                        tol = tol_of(ref, DJ[oi][ii]) + (64 * EPS + ad_rel) * np.abs(ref)
                         if extra is not None:
                             tol = tol + extra[oi][ii]
                         acc.count('obs:totals-' + mode)
